@@ -153,8 +153,8 @@ Proof.
   assert (Hne : cur <> ps_next s) by (intros ->; congruence).
   assert (Hmod : (ps_next s + 1) mod two64 = ps_next s + 1).
   { apply N.mod_small. unfold two56, two64 in *. lia. }
-  cbn [ps_next ps_inodes]. rewrite Hmod.
-  repeat split.
+  unfold ext, keys_lt. cbn [ps_next ps_inodes]. rewrite Hmod.
+  split; [|split; [|split; [|split; [|split]]]]; try reflexivity.
   - intros j pj Hj. destruct (N.eq_dec j cur) as [-> | Hjc].
     + rewrite aget_aset_same. eexists. split; [reflexivity|]. cbn [pi_parent pi_children].
       rewrite Hcur in Hj. inversion Hj; subst pj. split; [reflexivity|].
@@ -189,25 +189,25 @@ Theorem mount_then_walk : forall cs s cur s' i, keys_lt s -> ps_next s + N.of_na
 Proof.
   induction cs as [|c r IH]; intros s cur s' i KL Hb H.
   - cbn in H. inversion H; subst. cbn. repeat split; [apply ext_refl|exact KL|lia].
-  - cbn [ps_mount_walk] in H. cbn [length] in Hb.
+  - cbn [ps_mount_walk] in H. cbn [length] in Hb. rewrite Nat2N.inj_succ in Hb.
     destruct (aget cur (ps_inodes s)) as [pn|] eqn:Hc; [|discriminate].
     destruct c as [|k].
     + destruct (aget (pi_parent pn) (ps_inodes s)) as [pp|] eqn:Hp; [|discriminate].
       destruct (IH s (pi_parent pn) s' i KL ltac:(lia) H) as (W & E & KL' & Hn).
-      repeat split; [|exact E|exact KL'|lia].
+      repeat split; [|exact E|exact KL'|cbn [length]; rewrite Nat2N.inj_succ; lia].
       cbn [ps_walk]. destruct (E _ _ Hc) as (pn' & A & B & _). rewrite A, B.
       destruct (E _ _ Hp) as (pp' & A' & _). rewrite A'. exact W.
     + destruct (find_child k (pi_children pn)) as [ci|] eqn:Hf.
       * destruct (aget ci (ps_inodes s)) as [cn|] eqn:Hci; [|discriminate].
         destruct (IH s ci s' i KL ltac:(lia) H) as (W & E & KL' & Hn).
-        repeat split; [|exact E|exact KL'|lia].
+        repeat split; [|exact E|exact KL'|cbn [length]; rewrite Nat2N.inj_succ; lia].
         cbn [ps_walk]. destruct (E _ _ Hc) as (pn' & A & _ & C). rewrite A, (C _ _ Hf).
         destruct (E _ _ Hci) as (cn' & A' & _). rewrite A'. exact W.
       * destruct (ps_create s cur pn k) as [s1 ino] eqn:Hcr.
         assert (Hlt : ps_next s < two56) by lia.
         destruct (create_props s cur pn k s1 ino KL Hlt Hc Hf Hcr) as (E1 & KL1 & Hn1 & Hino & Hex & pn1 & Hc1 & Hf1).
         destruct (IH s1 ino s' i KL1 ltac:(lia) H) as (W & E & KL' & Hn).
-        repeat split; [|eapply ext_trans; eassumption|exact KL'|lia].
+        repeat split; [|eapply ext_trans; eassumption|exact KL'|cbn [length]; rewrite Nat2N.inj_succ; lia].
         cbn [ps_walk]. destruct (E _ _ Hc1) as (pn' & A & _ & C). rewrite A, (C _ _ Hf1).
         destruct (aget ino (ps_inodes s1)) as [cn|] eqn:Hci; [|contradiction].
         destruct (E _ _ Hci) as (cn' & A' & _). rewrite A'. exact W.
@@ -237,4 +237,130 @@ Proof.
   inversion Ei; subst s'. cbn [v_ps v_mps].
   destruct (mount_then_walk _ _ _ _ _ KL Hb Em) as (W & _ & KL' & _).
   exists inode. eexists. rewrite aget_aset_same. repeat split; try reflexivity; assumption.
+Qed.
+
+(* ---------- the pseudo-fs side conditions hold along every bounded history ---------- *)
+Definition ps_ok (ps : pseudo) : Prop := keys_lt ps /\ pkids_ok ps /\ 0 < ps_next ps.
+
+Lemma ps_ok_new : ps_ok ps_new.
+Proof.
+  unfold ps_ok, keys_lt, pkids_ok, ps_new. cbn [ps_next ps_inodes]. split; [|split; [|reflexivity]].
+  - intros i pn. cbn. destruct (i =? ROOT_ID) eqn:E; [|discriminate]. apply N.eqb_eq in E. subst. unfold ROOT_ID. lia.
+  - intros i pn. cbn. destruct (i =? ROOT_ID); [|discriminate]. intros H. inversion H. constructor.
+Qed.
+
+Lemma create_kids s cur pn k s1 ino : pkids_ok s -> 0 < ps_next s < two56 ->
+  aget cur (ps_inodes s) = Some pn -> ps_create s cur pn k = (s1, ino) -> pkids_ok s1.
+Proof.
+  intros K Hb Hcur H. unfold ps_create in H. inversion H; subst s1 ino. clear H.
+  unfold pkids_ok. cbn [ps_inodes]. intros i pi. rewrite !aget_aset.
+  destruct (i =? cur).
+  - intros Hi. inversion Hi. cbn [pi_children]. apply Forall_app. split; [exact (K _ _ Hcur)|].
+    constructor; [|constructor]. cbn [fst]. rewrite max_ino_two56. unfold two56 in *. lia.
+  - destruct (i =? ps_next s); [intros Hi; inversion Hi; constructor|]. apply K.
+Qed.
+
+Lemma mount_walk_ok : forall cs s cur s' i, ps_ok s -> ps_next s + N.of_nat (length cs) <= two56 ->
+  ps_mount_walk s cur cs = Ok (s', i) -> ps_ok s'.
+Proof.
+  induction cs as [|c r IH]; intros s cur s' i OK Hb H.
+  - cbn in H. inversion H; subst. exact OK.
+  - cbn [ps_mount_walk] in H. cbn [length] in Hb. rewrite Nat2N.inj_succ in Hb.
+    destruct (aget cur (ps_inodes s)) as [pn|] eqn:Hc; [|discriminate].
+    destruct c as [|k].
+    + destruct (aget (pi_parent pn) (ps_inodes s)); [|discriminate]. apply (IH s (pi_parent pn) s' i OK); [lia|exact H].
+    + destruct (find_child k (pi_children pn)) as [ci|] eqn:Hf.
+      * destruct (aget ci (ps_inodes s)); [|discriminate]. apply (IH s ci s' i OK); [lia|exact H].
+      * destruct (ps_create s cur pn k) as [s1 ino] eqn:Hcr. destruct OK as (KL & K & Hp).
+        assert (Hlt : ps_next s < two56) by lia.
+        destruct (create_props s cur pn k s1 ino KL Hlt Hc Hf Hcr) as (_ & KL1 & Hn1 & _).
+        assert (K1 : pkids_ok s1) by (eapply create_kids; try eassumption; lia).
+        apply (IH s1 ino s' i); [repeat split; [exact KL1|exact K1|lia]|lia|exact H].
+Qed.
+
+Lemma remove_first_named_sub nm cs cs' : remove_first_named nm cs = Some cs' -> forall x, In x cs' -> In x cs.
+Proof.
+  revert cs'. induction cs as [|[i n] r IH]; intros cs' H x Hx; cbn [remove_first_named] in H; [discriminate|].
+  destruct (n =? nm).
+  - inversion H; subst. right. exact Hx.
+  - destruct (remove_first_named nm r) as [r'|]; [|discriminate]. inversion H; subst.
+    destruct Hx as [<- | Hx]; [left; reflexivity|right; eapply IH; [reflexivity|exact Hx]].
+Qed.
+
+Lemma evict_ok ps ino ps' : ps_ok ps -> ps_evict ps ino = Ok ps' -> ps_ok ps'.
+Proof.
+  intros (KL & K & Hp). unfold ps_evict.
+  destruct (aget ino (ps_inodes ps)) as [pn|] eqn:Hi; [|discriminate].
+  destruct (ino =? pi_parent pn); [intros H; inversion H; subst; repeat split; assumption|].
+  destruct (aget (pi_parent pn) (ps_inodes ps)) as [par|] eqn:Hpar; [|discriminate].
+  destruct (remove_first_named (pi_name pn) (pi_children par)) as [cs|] eqn:Hr; [|discriminate].
+  remember (aset (pi_parent pn) (mkPi (pi_parent par) (pi_name par) cs) (ps_inodes ps)) as tbl eqn:Et.
+  intros H. inversion H; subst ps'. clear H. unfold ps_ok, keys_lt, pkids_ok. cbn [ps_next ps_inodes]. split; [|split; [|exact Hp]].
+  - intros i pi. rewrite aget_adel. destruct (i =? ino); [discriminate|]. subst tbl. rewrite aget_aset.
+    destruct (i =? pi_parent pn) eqn:E; [apply N.eqb_eq in E; subst; intros _; exact (KL _ _ Hpar)|apply KL].
+  - intros i pi. rewrite aget_adel. destruct (i =? ino); [discriminate|]. subst tbl. rewrite aget_aset.
+    destruct (i =? pi_parent pn).
+    + intros Hx. inversion Hx. cbn [pi_children]. pose proof (K _ _ Hpar) as F. rewrite Forall_forall in *.
+      intros x Hin. apply F. eapply remove_first_named_sub; eassumption.
+    + apply K.
+Qed.
+
+(* histories in which fewer than 2^56 pseudo directories are ever created *)
+Inductive breach : vfs -> Prop :=
+| B_new : forall o rm, breach (vfs_new o rm)
+| B_mount : forall s bid p map a s' r evs, breach s ->
+    ps_next (v_ps s) + N.of_nat (length (p_comps p)) <= two56 ->
+    vfs_mount s bid p map a = (s', r, evs) -> breach s'
+| B_umount : forall s p s' r evs, breach s -> vfs_umount s p = (s', r, evs) -> breach s'
+| B_init : forall s o e s' r evs, breach s -> vfs_init s o e = (s', r, evs) -> breach s'
+| B_destroy : forall s s' evs, breach s -> vfs_destroy s = (s', evs) -> breach s'.
+
+Lemma breach_reachable s : breach s -> reachable s.
+Proof. induction 1; [apply R_new|eapply R_mount|eapply R_umount|eapply R_init|eapply R_destroy]; eassumption. Qed.
+
+Lemma insert_mount_ps s bid e idx p s' r : ps_ok (v_ps s) ->
+  ps_next (v_ps s) + N.of_nat (length (p_comps p)) <= two56 -> insert_mount s bid e idx p = (s', r) -> ps_ok (v_ps s').
+Proof.
+  intros OK Hb. unfold insert_mount, ps_mount. destruct (p_rooted p); [|intros H; inversion H; subst; exact OK].
+  destruct (ps_mount_walk (v_ps s) ROOT_ID (p_comps p)) as [[ps' inode]| |] eqn:Em; try (intros H; inversion H; subst; exact OK).
+  pose proof (mount_walk_ok _ _ _ _ _ OK Hb Em) as OK'.
+  destruct (convert_entry (with_ps s ps') idx (e_ino e) e); intros H; inversion H; subst; exact OK'.
+Qed.
+
+Lemma vfs_init_ps s o e : v_ps (fst (fst (vfs_init s o e))) = v_ps s.
+Proof.
+  unfold vfs_init. destruct (v_init s); [reflexivity|].
+  remember (sb_in_order 256 0 (v_sb s)) as bs eqn:Hbs. clear Hbs.
+  destruct (o_no_open (v_opts s)); destruct (o_no_opendir (v_opts s)); cbv beta iota zeta;
+  destruct bs; try destruct (negb (e =? 0)); reflexivity.
+Qed.
+Lemma vfs_destroy_ps s : v_ps (fst (vfs_destroy s)) = v_ps s.
+Proof.
+  unfold vfs_destroy. remember (sb_in_order 256 0 (v_sb s)) as bs eqn:Hbs. clear Hbs. destruct (v_init s); reflexivity.
+Qed.
+
+Theorem breach_ps_ok s : breach s -> ps_ok (v_ps s).
+Proof.
+  induction 1 as [o rm| s bid p map a s' r evs _ IH Hb Hm | s p s' r evs _ IH Hu | s o e s' r evs _ IH Hi | s s' evs _ IH Hd].
+  - apply ps_ok_new.
+  - unfold vfs_mount in Hm.
+    destruct (negb (ma_err a =? 0)); [inversion Hm; subst; exact IH|].
+    destruct (VFS_MAX_INO <? ma_max a); [inversion Hm; subst; exact IH|].
+    destruct (v_init s && negb (ma_init_err a =? 0)); [inversion Hm; subst; exact IH|].
+    destruct (allocate_fs_idx s) as [[i| |] nx]; try (inversion Hm; subst; exact IH).
+    set (s2 := match map with Some m => with_maps (with_next s nx) (aset i m (v_maps (with_next s nx))) | None => with_next s nx end) in *.
+    assert (Hps : v_ps s2 = v_ps s) by (unfold s2; destruct map; reflexivity).
+    destruct (insert_mount s2 bid (root_entry_of a) i p) as [s3 r3] eqn:Ei.
+    assert (OK3 : ps_ok (v_ps s3)) by (eapply insert_mount_ps; [rewrite Hps; exact IH|rewrite Hps; exact Hb|exact Ei]).
+    destruct r3; inversion Hm; subst; exact OK3.
+  - unfold vfs_umount in Hu.
+    destruct (ps_path_walk (v_ps s) p) as [[inode|]| |]; try (inversion Hu; subst; exact IH).
+    destruct (ps_parent (v_ps s) inode); try (inversion Hu; subst; exact IH).
+    destruct (aget inode (v_mps s)); try (inversion Hu; subst; exact IH).
+    destruct (v_rm s).
+    + destruct (ps_evict (v_ps s) inode) as [ps'| |] eqn:Ee; try (inversion Hu; subst; exact IH).
+      inversion Hu; subst. cbn [v_ps]. eapply evict_ok; eassumption.
+    + inversion Hu; subst. exact IH.
+  - pose proof (vfs_init_ps s o e) as E. rewrite Hi in E. cbn [fst] in E. rewrite E. exact IH.
+  - pose proof (vfs_destroy_ps s) as E. rewrite Hd in E. cbn [fst] in E. rewrite E. exact IH.
 Qed.
